@@ -44,6 +44,17 @@ pub uninterp spec fn be8(x: u64) -> Seq<u8>;
 fn u64_to_be_bytes(x: u64) -> (r: [u8; 8])
     ensures r@ == be8(x)
 { x.to_be_bytes() }
+/// little-endian / native-endian encodings: other (uninterpreted) functions of the value; nothing relates them to be8
+pub uninterp spec fn le8(x: u64) -> Seq<u8>;
+#[verifier::external_body]
+fn u64_to_le_bytes(x: u64) -> (r: [u8; 8])
+    ensures r@ == le8(x)
+{ x.to_le_bytes() }
+pub uninterp spec fn ne8(x: u64) -> Seq<u8>;
+#[verifier::external_body]
+fn u64_to_ne_bytes(x: u64) -> (r: [u8; 8])
+    ensures r@ == ne8(x)
+{ x.to_ne_bytes() }
 
 // ---- ed25519 (A-crypto): everything below is an uninterpreted predicate / partial function ----
 /// `PublicKey::from_bytes(id)` succeeds (the 32 bytes are a valid curve point)
